@@ -5,7 +5,7 @@
    [wf]: what the constructors of the library enforce (k >= 1, at least one candidate, k <= #candidates when distinct). *)
 From Coq Require Import Sorted.
 From PG Require Import Common.Tactics Model.Geno Proofs.GenoBasics Proofs.GenoValid Proofs.GenoSize
-  Proofs.GenoOrder Proofs.GenoNext Proofs.GenoIter Proofs.GenoRandom Proofs.GenoExamples.
+  Proofs.GenoOrder Proofs.GenoNext Proofs.GenoIter Proofs.GenoRandom Proofs.GenoConcrete Proofs.GenoExact Proofs.GenoExamples.
 
 (* the set that is enumerated is precisely the set of decisions satisfying the constraints *)
 Theorem C11_valid_iff : forall s d, finite s = true -> (valid s d = true <-> In d (all_valid s)).
@@ -72,3 +72,32 @@ Theorem C11_random_member :
   forall s r, wf s = true -> valid s (fst (random_dna R sample randint uniform s r)) = true.
 Proof. exact random_member. Qed.
 Print Assumptions C11_random_member.
+
+(* validation accepts exactly the members: a DNA (in constructor normal form) validates iff it is the DNA of a
+   valid decision.  [nocustom]: the children of a custom decision are user-defined, hence not constrained. *)
+Theorem C11_validate_agrees : forall s d, wf s = true -> nocustom s = true -> nf d ->
+  (validate s d = true <-> exists sd, valid s sd = true /\ normalize sd = d).
+Proof.
+  intros s d Hwf Hnc Hnf. split.
+  - apply validate_exact; auto.
+  - intros [sd [Hv <-]]. apply validate_complete; auto.
+Qed.
+Print Assumptions C11_validate_agrees.
+
+(* binding (DNA.use_spec) accepts exactly the members, when the open finding's flag is off *)
+Theorem C11_bind_agrees : forall q s d, no_quirks q -> wf s = true -> nocustom s = true -> nf d ->
+  ((exists b, bind q s d = Some b) <-> exists sd, valid s sd = true /\ normalize sd = d).
+Proof.
+  intros q s d Hq Hwf Hnc Hnf. split.
+  - intros [b Hb]. eapply bind_exact; eauto.
+  - intros [sd [Hv <-]]. destruct (bind_complete q s sd Hwf Hv) as [b [Hb _]]. eauto.
+Qed.
+Print Assumptions C11_bind_agrees.
+
+(* ... and with the flag on (the code as it is: KNOWN finding float-children) binding accepts a non-member *)
+Theorem C11_bind_agrees_refuted :
+  let s := Space [FloatP 0%Z 64%Z ([KName [97%N]], None)] in
+  let d := D (VFlt 32%Z) [D (VInt 0%Z) []] in
+  (exists b, bind q_float s d = Some b) /\ ~ (exists sd, valid s sd = true /\ normalize sd = d) /\ bind q_none s d = None.
+Proof. exact bind_quirk_refuted. Qed.
+Print Assumptions C11_bind_agrees_refuted.
